@@ -6,7 +6,7 @@ import tempfile
 import shutil
 from concurrent.futures import ThreadPoolExecutor
 
-COQ_DIR = "/verif/coq"
+COQ_DIR = os.path.join(os.path.dirname(os.path.dirname(os.path.abspath(__file__))), "coq")
 _TAIL = """Import ListNotations.
 Set Printing Width 1000000.
 Set Printing Depth 1000000.
